@@ -1,4 +1,4 @@
-\* C15 walk stage cluster, quick bound; convention HoldStrict=True ExpiryClosed=True; code deviations included (Faithful)
+\* C15 walk stage cluster, quick bound; convention HoldStrict=True ExpiryClosed=True; hold by stored deadline (the code), its deviation edges included (Faithful)
 SPECIFICATION Spec
 CONSTANTS
   Peers = {"p1", "p2"}
@@ -12,6 +12,7 @@ CONSTANTS
   AdvSteps = {1, 2}
   HoldStrict = TRUE
   ExpiryClosed = TRUE
+  HoldBy = "deadline"
   Faithful = TRUE
 INVARIANTS TypeOK LevelBounded
 PROPERTIES LevelFormula OnlyRecalcSwitches OnOnlyIfReached OnWhenReached OffOnlyAfterHold ModePins
